@@ -31,20 +31,22 @@ pub fn mk_edge(e: &E) -> Arc<Edge<String, u32>> {
     Arc::new(Edge { u: e.u.clone(), v: e.v.clone(), attributes: e.attr, weight: e.weight() })
 }
 
+type ArcKey = (String, String, u64, Option<u32>);
 thread_local! {
     /// edges handed to the library earlier in this run: a caller that re-adds an edge (a retried batch, a
     /// template edge) passes the same Arc again
-    static ARCS: std::cell::RefCell<Vec<(E, Arc<Edge<String, u32>>)>> = const { std::cell::RefCell::new(Vec::new()) };
+    static ARCS: std::cell::RefCell<std::collections::BTreeMap<ArcKey, Arc<Edge<String, u32>>>> = const { std::cell::RefCell::new(std::collections::BTreeMap::new()) };
 }
 fn arc_of(e: &E) -> Arc<Edge<String, u32>> {
     ARCS.with(|a| {
         let mut a = a.borrow_mut();
-        if let Some((_, arc)) = a.iter().find(|(k, _)| k == e) {
+        let key: ArcKey = (e.u.clone(), e.v.clone(), e.w, e.attr);
+        if let Some(arc) = a.get(&key) {
             return arc.clone();
         }
         let arc = mk_edge(e);
-        if a.len() < 4096 {
-            a.push((e.clone(), arc.clone()));
+        if a.len() < 20_000 {
+            a.insert(key, arc.clone());
         }
         arc
     })
@@ -195,6 +197,29 @@ impl Snap {
     pub fn adj_min(&self, hop: bool) -> Vec<Vec<(usize, f64)>> {
         let n = self.n();
         let mut a: Vec<Vec<(usize, f64)>> = vec![vec![]; n];
+        if n > 5000 {
+            // large graphs: sort and merge instead of a linear search per edge
+            let mut all: Vec<(usize, usize, f64)> = Vec::with_capacity(self.edges.len() * 2);
+            for &(u, v, w) in &self.edges {
+                let w = if hop { 1.0 } else { w };
+                all.push((u, v, w));
+                if !self.directed && u != v {
+                    all.push((v, u, w));
+                }
+            }
+            all.sort_by(|x, y| (x.0, x.1).cmp(&(y.0, y.1)).then(x.2.total_cmp(&y.2)));
+            for (u, v, w) in all {
+                match a[u].last_mut() {
+                    Some(l) if l.0 == v => {
+                        if w < l.1 {
+                            l.1 = w
+                        }
+                    }
+                    _ => a[u].push((v, w)),
+                }
+            }
+            return a;
+        }
         let mut put = |u: usize, v: usize, w: f64| match a[u].iter_mut().find(|x| x.0 == v) {
             Some(x) => {
                 if w < x.1 {
